@@ -555,6 +555,10 @@ class FlowMixin:
         s1.assume(self.eval_clause("sig.scheduled and not sig._revoked and sig.target is me and loop.activity is me and loop.time == sig.due",
                                    s1, extra={"sig": sig, "me": Val(ANY, me)}))
         s1.note("resume[interrupt]")
+        if c is not None:
+            for cl in c.assume_on_wakeup:
+                self.assumptions_used.add("%s: whenever an interrupt resumes it: %s" % (c.fqn, cl))
+                s1.assume(self.eval_clause(cl, s1, extra={"sig": sig, "me": Val(ANY, me)}))
         if self.feasible(s1):
             outs.append((Outcome("X", sig), s1))
         # --- resumption 2: forceful close
